@@ -5,7 +5,9 @@ pub mod c05;
 pub mod c06;
 pub mod c08;
 pub mod c09;
+pub mod c10;
 pub mod c15;
+pub mod c16;
 
 use crate::report::Tier;
 use serde_json::Value;
@@ -19,7 +21,9 @@ pub fn check(id: &str, tier: Tier, seed: u64) -> Option<i32> {
         "C06" => c06::check(tier, seed),
         "C08" => c08::check(tier, seed),
         "C09" => c09::check(tier, seed),
+        "C10" => c10::check(tier, seed),
         "C15" => c15::check(tier, seed),
+        "C16" => c16::check(tier, seed),
         _ => return None,
     })
 }
@@ -34,7 +38,9 @@ pub fn rerun(id: &str, tier: Tier, seed: u64, run: u64) -> Option<crate::report:
         "C06" => c06::rerun(tier, seed, run),
         "C08" => c08::rerun(tier, seed, run),
         "C09" => c09::rerun(tier, seed, run),
+        "C10" => c10::rerun(tier, seed, run),
         "C15" => c15::rerun(tier, seed, run),
+        "C16" => c16::rerun(tier, seed, run),
         _ => None,
     }
 }
@@ -80,7 +86,9 @@ pub fn replay(id: &str, doc: &Value) -> Option<Option<String>> {
         "C06" => c06::replay(doc),
         "C08" => c08::replay(doc),
         "C09" => c09::replay(doc),
+        "C10" => c10::replay(doc),
         "C15" => c15::replay(doc),
+        "C16" => c16::replay(doc),
         _ => return None,
     })
 }
